@@ -52,6 +52,11 @@ type (
 		X    Expr
 		Type string
 	}
+	// EachE: set comprehension in modifies clauses: each r :: P(r)
+	EachE struct {
+		Var  string
+		Body Expr
+	}
 	LetE struct {
 		Name string
 		Val  Expr
